@@ -2,7 +2,7 @@
 bb8 enforces the bound and the queue (library, not decided); decided is that pgcat configures and uses
 bb8 so that the bound can hold and no guard leaks."""
 from mirlib import *
-from common import cancelled_io_findings
+from common import cancelled_io_findings, completed_request_release_findings
 
 H = "pgcat::client::Client::handle::{closure#0}"
 FROM_CONFIG = "pgcat::pool::ConnectionPool::from_config::{closure#0}"
@@ -93,6 +93,12 @@ def run(ctx):
             drops = [b for b, blk in enumerate(h.blocks) if blk["term"]["k"] == "drop" and blk["term"]["pl"]["l"] == guard[0] and not blk["term"]["pl"]["p"] and not blk["cleanup"]]
             wit = h.uncrossed_path(gdef, [outer], blocks=drops)
             r3.check(bool(drops) and wit is None, "drop-before-idle", "every path from the checkout to the next idle wait drops the guard (%d drop sites)" % len(drops), "the guard can be held across the idle wait: the server stays checked out while the client is between transactions", "", wit and h.describe_path(wit))
+            # ... and the way back to the idle wait is taken as soon as a request is complete outside a transaction, also when pgcat answered it itself (D83)
+            crr = completed_request_release_findings(F)
+            if crr is None:
+                r3.missing("transaction loop / message-code switch in handle")
+            for key, ok, good, bad in crr or []:
+                r3.check(ok, key, good, bad)
             # the guard is declared inside the loop: its definition is inside the idle loop body
             r3.check(all(b_ in natural_loop(h, outer) for b_ in gdef), "guard-scoped-to-iteration", "the guard is defined inside the idle-loop iteration", "the guard is defined outside the idle loop")
             # it is not moved anywhere else
